@@ -33,7 +33,7 @@ fn from_nanos_no_div(nanos: u64) -> Duration {
     }
 }
 
-const MAX_POLLS: u32 = 3;
+static mut MAX_POLLS: u32 = 0xa4; // OS polls per execution (2 in the quick harness, 3 in the thorough one)
 
 fn poll_hook(timeout: Option<Duration>) -> i32 {
     unsafe {
@@ -85,12 +85,8 @@ fn new_loop() -> std::mem::ManuallyDrop<EventLoop<'static>> {
 
 /// A plain thread waits for `d`: for EVERY d (seconds and nanoseconds symbolic) and every clock reading, whatever
 /// mixture of timeouts, signals (EINTR) and delays the OS wait produces, Ok is returned only once d has passed.
-#[kani::proof]
-#[kani::unwind(5)]
-#[kani::stub(crate::common::now, vnow)]
-#[kani::stub(alloc::fmt::format, fmt_stub)]
-#[kani::stub(std::time::Duration::from_nanos, from_nanos_no_div)]
-fn c14_timed_wait_just_not_early() {
+fn timed_wait_just_not_early(max_polls: u32) {
+    unsafe { MAX_POLLS = max_polls };
     let el = new_loop();
     let secs: u64 = kani::any();
     let nanos: u32 = kani::any();
@@ -102,7 +98,7 @@ fn c14_timed_wait_just_not_early() {
         EINTRS = 0;
         HARD_ERR = false;
         POLLED_FOREVER = false;
-        mio::VERIF_POLL_HOOK = Some(poll_hook);
+        mio::VERIF_POLL_HOOK.0 = Some(poll_hook);
     }
     let d = Duration::new(secs, nanos);
     let r = el.timed_wait_just(Some(d));
@@ -114,9 +110,25 @@ fn c14_timed_wait_just_not_early() {
         } else {
             kani::assert(HARD_ERR, "a timed wait fails only when the OS wait failed with something else than EINTR");
         }
-        kani::cover!(r.is_ok() && EINTRS >= 1 && POLLS == 3, "interrupted by a signal, retried, then timed out");
+        kani::cover!(r.is_ok() && EINTRS >= 1 && POLLS == max_polls, "interrupted by a signal, retried, then timed out");
         kani::cover!(r.is_ok() && secs > 1_000_000, "a very long wait (the thread was descheduled past the deadline)");
         kani::cover!(r.is_err(), "hard OS error");
-        mio::VERIF_POLL_HOOK = None;
+        mio::VERIF_POLL_HOOK.0 = None;
     }
 }
+
+macro_rules! c14_wait {
+    ($name:ident, $polls:expr) => {
+        #[kani::proof]
+        #[kani::unwind(4)]
+        #[kani::stub(crate::common::now, vnow)]
+        #[kani::stub(alloc::fmt::format, fmt_stub)]
+        #[kani::stub(std::time::Duration::from_nanos, from_nanos_no_div)]
+        fn $name() {
+            timed_wait_just_not_early($polls);
+        }
+    };
+}
+// measured (unloaded): 3 polls = 2.75 M program steps, 4.5 M SAT variables, 190 s symbolic execution + 1531 s SAT
+c14_wait!(c14_timed_wait_just_not_early_2_polls, 2);
+c14_wait!(c14_timed_wait_just_not_early, 3);
